@@ -39,7 +39,10 @@ def _case(draw, tier):
             "prior": draw(st.sampled_from(["absent", "unref", "ref"])),
             "cks": cks, "cks_algo": draw(gen.algo_spelling()), "size": size,
             "dsize": draw(st.sampled_from([-1, 1, 7])), "flip": draw(st.integers(0, 200)),
-            "kind": draw(st.sampled_from(["str", "path", "file", "bytesio"])),
+            "kind": draw(st.sampled_from(["str", "path", "file", "bytesio", "gzip"])),
+            # delete_if_invalid_object only: an earlier VALID call on the same ObjectMetadata (the verdict must
+            # not depend on it)
+            "dii_first": draw(st.sampled_from(["none", "none", "right", "upper"])),
             # additional_algorithm (store_object only): absent, the same spelling as the checksum algorithm,
             # the store algorithm's hashlib name, or any other
             "add": draw(st.sampled_from(["none", "none", "same-as-cks", "store-algo", "other"])),
@@ -69,6 +72,11 @@ def run_case(case, ctx):
         r0 = run.step({"op": "store", "pid": None, "c": 0, "kind": case["kind"]})
         if not is_ok(r0.out):
             return  # storing without a pid failed: C01's business
+        if case.get("dii_first", "none") != "none":
+            rp = run.step({"op": "dii", "c": 0, "cks": case["dii_first"], "cks_algo": case["cks_algo"], "size": "right"})
+            if not is_ok(rp.out):
+                ctx.violation("wrong-verdict", f"preliminary delete_if_invalid_object with a correct {case['dii_first']}-case "
+                              f"checksum ({case['cks_algo']}) raised {rp.out[1]}", {"entry": "dii", "valid": True, "cks": case["dii_first"]})
         r = run.step(dict({"op": "dii"}, **common_args))
     valid = "ok" in r.exp
     what = f"{entry} prior={prior} cks={case['cks']} algo={common_args['cks_algo']} add={case.get('add')} size={case['size']} " \
